@@ -114,7 +114,11 @@ func (s *state) walk(node ast.Node) {
 	case *ast.TemplateNode:
 		s.visitTemplate(node)
 	case *ast.ListNode:
+		// a block is a variable scope: a {let} made inside maps its name to a
+		// javascript variable only until the block ends.
+		s.scope.push()
 		s.visitChildren(node)
+		s.scope.pop()
 
 		// Output nodes ----------
 	case *ast.RawTextNode:
